@@ -316,7 +316,7 @@ pub fn run(args: &Args) -> i32 {
     }
     out.line(&ro_requester(b, seed));
     b += 1;
-    for i in 0..(if thorough { 10 } else { 3 }) {
+    for i in 0..(if thorough { 80 } else { 3 }) {
         out.line(&ro_reply(b, seed ^ (i * 13)));
         b += 1;
     }
@@ -324,16 +324,14 @@ pub fn run(args: &Args) -> i32 {
         out.line(&ro_put_reply(b, v, seed ^ 0x77));
         b += 1;
     }
-    for (i, v) in ["reachable", "nat", "reachable_public_ip", "nat_public_ip", "reachable", "nat", "reachable_public_ip"].iter().enumerate() {
-        if !thorough && i >= 4 {
-            break;
-        }
+    let variants: Vec<&str> = if thorough { ["reachable", "nat", "reachable_public_ip", "nat_public_ip"].iter().cycle().take(32).cloned().collect() } else { vec!["reachable", "nat", "reachable_public_ip", "nat_public_ip"] };
+    for (i, v) in variants.iter().enumerate() {
         out.line(&adaptive(b, v, seed ^ (i as u64 * 101)));
         b += 1;
     }
     out.line(&explicit(b, seed));
     b += 1;
-    for i in 0..(if thorough { 4 } else { 1 }) {
+    for i in 0..(if thorough { 24 } else { 1 }) {
         out.line(&revote(b, seed ^ (i * 7 + 3)));
         b += 1;
     }
